@@ -350,7 +350,7 @@ def disable_races_peer_close_round():
 
 def disable_from_callback_round():
     """the application reacts to a received message by calling disable() - from the message_received callback, i.e. on the
-    protocol's dispatcher thread - over real loopback TCP.  KNOWN FINDING C09-disable-from-callback: it never returns."""
+    protocol's dispatcher thread - over real loopback TCP.  (It never returned before D43.)"""
     import secsgem.common.tcp_connection
     secsgem.common.tcp_connection.TcpConnection.select_timeout = 0.02
     port = common.own_port(7)
@@ -726,7 +726,7 @@ def run(tier, replay=None):
                               "stream_hex": [f.hex() for f in st], **obs}, True, tag="tcp")
             break
     common.report_wedged(report, twedged, proof)
-    # last, because its two threads stay behind (one of them spinning) until the process ends
+    # last: should it fail, two threads stay behind (one of them spinning) until the process ends
     cb_obs = common.guarded(disable_from_callback_round, "disable() called from the message_received callback", awedged, 60.0)
     if cb_obs is not None and not cb_obs.get("disable_returned"):
         known9 = {e["id"]: e for e in common.known_findings("C09") if e.get("status") == "open"}
